@@ -327,11 +327,13 @@ def nontrivial(c, io):
 # ------------------------------------------------------------------------------------ the property on the real code
 def _check_history(ops):
     """Run a history on a fresh private database, checking C14 after every step.  Returns the first
-    failure (dict) or None."""
+    failure that is not the known finding (AddUnit into a type without base unit); if only that one
+    occurs, returns it; None when the property holds throughout."""
     from barril.units.unit_database import UnitDatabase
 
     db = _new_db()
     based = set()
+    known_only = None
     for i, op in enumerate(ops):
         before = rc.snapshot(db)
         UnitDatabase.PushSingleton(db)
@@ -342,22 +344,18 @@ def _check_history(ops):
         if "err" in o:
             if rc.snapshot(db) != before:
                 return dict(clause="a rejected registration changed the registry", step=i, call=_show_op(op),
-                            error=o["err"])
+                            error=o["err"], history=[_show_op(x) for x in ops[: i + 1]])
             continue
         if op["k"] == "base":
             based.add(op["qt"])
-        fails = rc.registry_invariant(db, based)
-        if fails:
-            f = dict(fails[0])
+        for g in rc.registry_invariant(db, based):
+            f = dict(g)
             f.update(step=i, call=_show_op(op), history=[_show_op(x) for x in ops[: i + 1]])
-            # prefer a failure that is not the known one
-            for g in fails:
-                if not g.get("no_base_registered"):
-                    f = dict(g)
-                    f.update(step=i, call=_show_op(op), history=[_show_op(x) for x in ops[: i + 1]])
-                    break
-            return f
-    return None
+            if not g.get("no_base_registered"):
+                return f
+            if known_only is None:
+                known_only = f
+    return known_only
 
 
 def oracle(c, ctx):
